@@ -347,7 +347,8 @@ theorem ex_dictAny_merge :
 theorem ex_dictAny_optimize (n : Nat) :
     optimize cfgEx (genEnv oEx) (n + 6) (.union [.obj [("a", .int)], .dict .unknown]) =
       .ok (.union [.obj [("a", .int)], .dict .unknown]) := by
-  simp +decide [optimize, C08P.optimizeUnion_eq, splitMembers, cfgEx, C08P.stageMerge, C08P.stageInt,
+  simp +decide [optimize, C08P.optimizeUnion_eq, splitMembers, splitMembersAux, Ty.size, Ty.sizeList,
+    cfgEx, C08P.stageMerge, C08P.stageInt,
     C08P.stageStr, C08P.stageList, C08P.stageDict, C08P.finishOpt, mkUnion, mkUnionMembers, flattenUnion,
     handleType, hashStr, hashStrs, hashFields, removeFirst, Ty.isStr, Ty.isInt, Ty.isFloat, Ty.isUnknown,
     Ty.isNull, bind, Except.bind, pure, Except.pure, insertUniq, mkLit, mergeFieldSets, mergeFieldSets.go,
@@ -430,7 +431,8 @@ theorem ex_merge : mergeFieldSets cfgEx.lit (genEnv oEx) [f1, f2] = .ok fm := by
 theorem ex_opt_a (n : Nat) : optimize cfgEx (genEnv oEx) (n + 3) (.union [.int, .lit false ["y"]]) =
     .ok (.union [.int, .lit false ["y"]]) := by
   have h1 : "y".length = 1 := by decide
-  simp +decide [optimize, C08P.optimizeUnion_eq, splitMembers, cfgEx, C08P.stageMerge, C08P.stageInt,
+  simp +decide [optimize, C08P.optimizeUnion_eq, splitMembers, splitMembersAux, Ty.size, Ty.sizeList,
+    cfgEx, C08P.stageMerge, C08P.stageInt,
     C08P.stageStr, C08P.stageList, C08P.stageDict, C08P.finishOpt, mkUnion, mkUnionMembers, flattenUnion,
     handleType, hashStr, hashStrs, removeFirst, Ty.isStr, Ty.isInt, Ty.isFloat, Ty.isUnknown, Ty.isNull, bind,
     Except.bind, pure, Except.pure, insertUniq, mkLit, h1]
@@ -444,7 +446,8 @@ theorem ex_opt_c (n : Nat) : optimize cfgEx (genEnv oEx) (n + 2) (.list .unknown
 theorem ex_opt_d (n : Nat) :
     optimize cfgEx (genEnv oEx) (n + 6) (.union [.list .unknown, .list (.union [.int, .null])]) =
       .ok (.list (.opt .int)) := by
-  simp +decide [optimize, C08P.optimizeUnion_eq, splitMembers, cfgEx, C08P.stageMerge, C08P.stageInt,
+  simp +decide [optimize, C08P.optimizeUnion_eq, splitMembers, splitMembersAux, Ty.size, Ty.sizeList,
+    cfgEx, C08P.stageMerge, C08P.stageInt,
     C08P.stageStr, C08P.stageList, C08P.stageDict, C08P.finishOpt, mkUnion, mkUnionMembers, flattenUnion,
     handleType, hashStr, hashStrs, removeFirst, Ty.isStr, Ty.isInt, Ty.isFloat, Ty.isUnknown, Ty.isNull, bind,
     Except.bind, pure, Except.pure, insertUniq, mkLit]
@@ -551,7 +554,8 @@ example : C08P.rawD cfgEx (.union [.unknown, .int]) = true ∧
     rcases hm with rfl | rfl
     · exact .inl ⟨rfl, by simp⟩
     · exact .inr (by simp [Wit, elemsOf])
-  · simp +decide [optimize, C08P.optimizeUnion_eq, splitMembers, cfgEx, C08P.stageMerge, C08P.stageInt,
+  · simp +decide [optimize, C08P.optimizeUnion_eq, splitMembers, splitMembersAux, Ty.size, Ty.sizeList,
+    cfgEx, C08P.stageMerge, C08P.stageInt,
       C08P.stageStr, C08P.stageList, C08P.stageDict, C08P.finishOpt, mkUnion, mkUnionMembers, flattenUnion,
       handleType, hashStr, hashStrs, removeFirst, Ty.isStr, Ty.isInt, Ty.isFloat, Ty.isUnknown, Ty.isNull, bind,
       Except.bind, pure, Except.pure, insertUniq, mkLit]
